@@ -50,6 +50,10 @@ def monitor(case, outs, recs, log, ctx, block):
                                 {"case": case, "at": len(case) - 2})
                     return
                 continue
+            if ok and d[:4] != b"FSOS":
+                ctx.failure("datagram-not-addressed-to-the-server-queued", "a datagram whose header is not a TO_SERVER header (%r...) from %s "
+                            "passed the entry point" % (d[:4], addr), {"case": case, "at": len(case) - 2})
+                return
             bytes_in[addr] = bytes_in.get(addr, 0) + len(d)
         for e in rec["events"]:
             if e.startswith("connect:"):
@@ -111,5 +115,7 @@ def run(ctx):
         monitor(c, outputs[core.case_id(c)], recs, log, ctx, block)
         if not ctx.failures:
             serverlib.honest_monitor(c, recs, log, ctx)
+        if not ctx.failures:
+            serverlib.silence_monitor(c, recs, ctx)
         if ctx.failures:
             return
